@@ -782,7 +782,8 @@ def serial_cases(tier):
     # several repetitions whose records are equal in value across combinations but differ in type (ints / floats):
     # every combination's aggregate is computed from ITS records
     big = 2 ** 53 + 2
-    rows = [[float(big)] * 3, [big] * 3, [1.0, 1.0, 1.0], [1, 1, 1], [0.0, 0.0, 0.0], [0, 0, 0]]      # floats first
+    # (the last two rows mix kinds WITHIN the repetitions of one combination: an int first, floats after it)
+    rows = [[float(big)] * 3, [big] * 3, [1.0, 1.0, 1.0], [1, 1, 1], [0.0, 0.0, 0.0], [0, 0, 0], [1, 0.1, 0.7], [2, 0.5, 0.3]]
     for r1 in rows:
         for r2 in rows:
             if r1 is not r2:
